@@ -61,11 +61,11 @@ pub struct Program {
     /// sequential prelude before the threads start: this many orders (fresh reserved ids) are
     /// added and cancelled again, leaving that many dead tickets in the queue
     #[serde(default)]
-    pub churn: u16,
+    pub churn: u32,
     /// sequential prelude: this many one-unit Standard orders (fresh reserved ids) are added and
     /// stay resting (large sweeps, many-order states)
     #[serde(default)]
-    pub burst: u16,
+    pub burst: u32,
 }
 
 impl Program {
@@ -170,15 +170,8 @@ pub fn program(cfg: ProgCfg) -> BoxedStrategy<Program> {
         sched::schedule(cfg.schedule_len),
     )
         .prop_flat_map(|(price, preload, threads, first, schedule)| {
-            let churn = prop_oneof![
-                8 => Just(0u16),
-                1 => 1u16..=8,
-                1 => 30u16..=40,
-                1 => 62u16..=70,
-                1 => 126u16..=134,
-                1 => prop_oneof![250u16..=260, 1020u16..=1030],
-            ];
-            let burst = prop_oneof![12 => Just(0u16), 1 => 17u16..=20, 1 => 62u16..=70];
+            let churn = prop_oneof![3 => Just(0u32), 1 => gen::size_class(17)];
+            let burst = prop_oneof![6 => Just(0u32), 1 => gen::size_class(10)];
             (churn, burst).prop_map(move |(churn, burst)| Program { price, preload: preload.clone(), threads: threads.clone(), first, schedule: schedule.clone(), churn, burst })
         })
         .boxed()
@@ -476,7 +469,8 @@ pub fn execute(p: &Program, with_probes: bool) -> Execution {
             }
         }));
     }
-    let budget = 20_000;
+    // (a sweep over the prelude's dead tickets / resting orders costs a few steps each)
+    let budget = 20_000 + 8 * p.churn as u64 + 40 * p.burst as u64;
     let probe_dyn: &sched::Probe = &probe;
     let info = run_scheduled(&p.schedule, p.first, budget, bodies, if with_probes { Some(probe_dyn) } else { None });
     let w = world.into_inner().unwrap();
